@@ -1763,3 +1763,14 @@ func growCap(oldCap, newLen, esize int64) int64 {
 	}
 	return roundupsize(newcap*esize) / esize
 }
+
+// lookupMethod: the function implementing the (exported, possibly promoted) method name of type t, nil if none.
+func (c *Ctx) lookupMethod(t types.Type, name string) *ssa.Function {
+	ms := c.Prog.MethodSets.MethodSet(t)
+	for i := 0; i < ms.Len(); i++ {
+		if sel := ms.At(i); sel.Obj().Name() == name {
+			return c.Prog.MethodValue(sel)
+		}
+	}
+	return nil
+}
